@@ -16,7 +16,8 @@ RULE = ("seeded force fields with links randomly withheld / not matching x resid
         "'realised' iff the reference model (and the captured molecule) has >= 1 atom-level edge between the two "
         "residues; the set of 'Missing a link' warnings must equal the set of unrealised edges. Second half: every "
         "produced .itp whose written bond graph is disconnected is given to gen_coords, which must raise before any "
-        "placement and leave no output. non-trivial = residue graph with >= 1 edge; distinct = hash(files, graph)")
+        "placement and leave no output. non-trivial = residue graph with >= 1 edge; distinct = hash(files, graph)"
+        ' Later strata: atom-id links with two bonds, the shipped libraries, gen_params -dsdna with a backbone link that knows a subset of the names, the gen_coords gate with start coordinates for the leading molecules.')
 ASSUMPTIONS = ["residue-graph edges are taken from the generated input graph, not from the program's state",
                "for the gen_coords half 'connected' is decided on the written bonds + constraints"]
 CASE_TIMEOUT = 120
